@@ -356,6 +356,8 @@ def _component_flow(prog, cg, f, vid, local_roles):
     packed = []
     seen = set()
 
+    const_params = set()
+
     def const_side(n):
         n = strip(n)
         k = n.get('kind')
@@ -365,8 +367,37 @@ def _component_flow(prog, cg, f, vid, local_roles):
             return const_side(children(n)[0])
         if k == 'DeclRefExpr':
             ref = n.get('referencedDecl') or {}
+            if ref.get('id') in const_params:
+                return True
             return ref.get('kind') == 'EnumConstantDecl' or 'const' in (ref.get('type') or '')
         return False
+
+    # parameters of local lambdas that only ever receive literals (`require_patch(0)`, a macro turned into a
+    # lambda): constants of the decision, their values are among the literals of f
+    lam = {}
+    for d in walk(f.body):
+        if d.get('kind') == 'VarDecl':
+            for y in walk(d):
+                if y.get('kind') == 'LambdaExpr':
+                    for z in children(y):
+                        if z.get('kind') == 'CXXRecordDecl':
+                            for m in children(z):
+                                if m.get('kind') == 'CXXMethodDecl' and m.get('name') == 'operator()':
+                                    lam[d['id']] = [p for p in children(m) if p.get('kind') == 'ParmVarDecl']
+                    break
+    passed = {}
+    for x in walk(f.body):
+        if x.get('kind') == 'CXXOperatorCallExpr':
+            c = children(x)
+            if len(c) >= 2 and (strip(c[0]).get('referencedDecl') or {}).get('name') == 'operator()':
+                o = strip(c[1])
+                ps = lam.get((o.get('referencedDecl') or {}).get('id')) if o.get('kind') == 'DeclRefExpr' else None
+                if ps and len(ps) == len(c) - 2:
+                    for p_, a in zip(ps, c[2:]):
+                        passed.setdefault(p_['id'], []).append(a)
+    for pid, args_ in passed.items():
+        if all(const_side(a) for a in args_):
+            const_params.add(pid)
 
     def visit(g, tainted, whole_ids, top=False):
         key = (g.key, tuple(sorted((k, tuple(sorted(v))) for k, v in tainted.items())), tuple(sorted(whole_ids)))
